@@ -250,9 +250,12 @@ func VerifC09IndexFrameNative() {
 }
 
 // verifFlattenWitness is a document the JSON-LD processor rejects with the kind of error
-// the stub chose: a *ld.JsonLdError (invalid local context) or a plain error (a scalar as
-// the content of a named graph).
+// the stub chose: a *ld.JsonLdError (invalid local context), a plain error (a scalar as
+// the content of a named graph) or a panic inside the processor (a non-boolean @protected).
 func verifFlattenWitness(scope string) string {
+	if v.ReplayBool("flag:" + scope + ".flatten.panic") {
+		return `{"@context": {"@protected": 5, "apiContract": "http://a.ml/vocabularies/apiContract#"}, "@id": "http://x/a", "@type": "apiContract:EndPoint"}`
+	}
 	if v.ReplayBool("flag:" + scope + ".flatten.plain") {
 		return `{"@id": "http://example.com/g", "@graph": "http://example.com/x"}`
 	}
